@@ -44,6 +44,8 @@ func init() {
 		mutant{"at-limit write parks before the reactor is armed (multicast)", "multicast/peer.go",
 			"\tp.write.b = b\n\tp.write.addr = addr\n\tp.write.fn = fn\n\n\tif p.ioc.Dispatched < sonic.MaxCallbackDispatch {\n\t\tp.asyncWriteNow(b, addr, func(err error, n int) {\n\t\t\tp.ioc.Dispatched++\n\t\t\tfn(err, n)\n\t\t\tp.ioc.Dispatched--\n\t\t})\n\t} else {\n\t\tp.scheduleWrite(fn)\n\t}",
 			"\tif p.ioc.Dispatched >= sonic.MaxCallbackDispatch {\n\t\tp.scheduleWrite(fn)\n\t\treturn\n\t}\n\n\tp.write.b = b\n\tp.write.addr = addr\n\tp.write.fn = fn\n\n\tp.asyncWriteNow(b, addr, func(err error, n int) {\n\t\tp.ioc.Dispatched++\n\t\tfn(err, n)\n\t\tp.ioc.Dispatched--\n\t})", "C01-R2b"},
+		mutant{"parked write keeps the previous destination", "multicast/peer.go",
+			"\tp.write.b = b\n\tp.write.addr = addr\n\tp.write.fn = fn", "\tp.write.b = b\n\tp.write.fn = fn", "C01-R2b"},
 		mutant{"cancel clears the handler after invoking it", "file.go",
 			"\t\tf.slot.Handlers[internal.ReadEvent](err)\n\t}\n}\n\nfunc (f *file) cancelWrites() {", "\t\tf.slot.Handlers[internal.ReadEvent](err)\n\t\tf.slot.Handlers[internal.ReadEvent] = nil\n\t}\n}\n\nfunc (f *file) cancelWrites() {", "C01-R2"},
 		mutant{"interest not removed before dispatch (write)", "internal/poll_linux.go",
@@ -742,6 +744,89 @@ func checkArming(c *Ctx, e *e2, handler *ssa.Function, field *types.Var) {
 			}
 		}
 	}
+	// sibling operands: the other fields of the same reactor that the handler reads and that some function fills from a
+	// parameter (buffer, destination, all-flag, progress): wherever the callback is armed they must be armed as well
+	type sib struct {
+		f      *types.Var
+		armers map[*ssa.Function]bool
+	}
+	var siblings []sib
+	for _, pk := range p.Pkgs {
+		sc := pk.Types.Scope()
+		for _, name := range sc.Names() {
+			tn, ok := sc.Lookup(name).(*types.TypeName)
+			if !ok {
+				continue
+			}
+			stt, ok := tn.Type().Underlying().(*types.Struct)
+			if !ok {
+				continue
+			}
+			owns := false
+			for i := 0; i < stt.NumFields(); i++ {
+				if stt.Field(i) == field {
+					owns = true
+				}
+			}
+			if !owns {
+				continue
+			}
+			for i := 0; i < stt.NumFields(); i++ {
+				g := stt.Field(i)
+				if g == field {
+					continue
+				}
+				loaded := false
+				for _, a := range fieldAccesses(handler, g) {
+					if a.Kind == "load" {
+						loaded = true
+					}
+				}
+				if !loaded {
+					continue
+				}
+				arm := map[*ssa.Function]bool{}
+				for _, fn := range p.Funcs {
+					for _, st := range storesTo(fn, g) {
+						if _, isPrm := resolveCell(strip(st.Val)).(*ssa.Parameter); isPrm {
+							arm[fn] = true
+						}
+					}
+				}
+				// the back-pointer to the owning object is set once by the constructor
+				if pt, isPtr := g.Type().(*types.Pointer); isPtr {
+					if nt, isNamed := pt.Elem().(*types.Named); isNamed && nt.Obj().Pkg() != nil && c14Owners[nt.Obj().Pkg().Path()+"."+nt.Obj().Name()] {
+						continue
+					}
+				}
+				siblings = append(siblings, sib{g, arm})
+			}
+		}
+	}
+	siblingsArmed := func(fn *ssa.Function, at ssa.Instruction) string {
+		for _, sb := range siblings {
+			ok := false
+			eachInstr(fn, func(in ssa.Instruction) {
+				if in != at && !dominatesInstr(in, at) {
+					return
+				}
+				if st, isSt := in.(*ssa.Store); isSt {
+					if fv, _ := fieldAddrOf(st.Addr); fv == sb.f {
+						ok = true
+					}
+				}
+				if call, isCall := in.(ssa.CallInstruction); isCall {
+					if callee := call.Common().StaticCallee(); callee != nil && sb.armers[callee] {
+						ok = true
+					}
+				}
+			})
+			if !ok {
+				return sb.f.Name()
+			}
+		}
+		return ""
+	}
 	armsBefore := func(fn *ssa.Function, prmIdx int, before ssa.Instruction) bool {
 		prm := fn.Params[prmIdx]
 		ok := false
@@ -811,9 +896,16 @@ func checkArming(c *Ctx, e *e2, handler *ssa.Function, field *types.Var) {
 						continue
 					}
 					if armsBefore(fn, i, in) {
+						if missing := siblingsArmed(fn, in); missing != "" {
+							if !reported[fn] {
+								reported[fn] = true
+								c.bad(fn, "arms "+field.Name(), in.Pos(), "%s arms the reactor's callback but not its field %s before %s can park the operation: the handler retries with the previous operation's %s (wrong buffer, destination or mode)", fnName(fn), missing, callee.Name(), missing)
+							}
+							return
+						}
 						if !reported[fn] {
 							reported[fn] = true
-							c.ok(fn, "arms "+field.Name(), in.Pos(), "the reactor is armed with this operation's callback before %s can park it", callee.Name())
+							c.ok(fn, "arms "+field.Name(), in.Pos(), "the reactor is armed with this operation's callback and operands before %s can park it", callee.Name())
 						}
 						return
 					}
